@@ -366,6 +366,13 @@ FastForward
 // hashgraph from a Block and associated Frame.
 func (c *core) fastForward(block *hg.Block, frame *hg.Frame) error {
 	c.logger.Debug("Fast Forward", frame.Round)
+
+	for _, p := range frame.Peers {
+		if p == nil {
+			return fmt.Errorf("Invalid Frame: nil peer")
+		}
+	}
+
 	peerSet := peers.NewPeerSet(frame.Peers)
 
 	// Check Block Signatures
